@@ -14,7 +14,9 @@ Hypotheses of the replication theorem (each is necessary; see the `example`s at 
   has confirmed open (`strip (state before) = none`).
 **Partial**: connectivity, balances, market-data registers and tear sheets are updated by the same
 `update_from_*` calls on both sides and are compared directly on the real engine / replica by the
-correspondence run, not re-proved here; that the async runner's channel is FIFO is an assumption.
+correspondence run, not re-proved here (the abstract statement behind that comparison, with its
+hypothesis on the strategy hooks, is `rest_components_replicate` at the end of the file); that the
+async runner's channel is FIFO is an assumption.
 -/
 namespace BarterModel.Props.C10
 open BarterModel.Audit BarterModel.Engine BarterModel.Orders
@@ -463,5 +465,160 @@ example : orderState (engineRun demoEng hist) 0 7 = some (.opn rep1) ∧
 example : orderState (engineRun demoEng ((hist.take 2) ++ [(.update (.price 0 101), ask0)])) 0 7 = some .inFlight ∧
     orderState (replicaRun demoEng ((hist.take 2) ++ [(.update (.price 0 101), ask0)])) 0 7 = some (.opn rep1) := by
   decide +kernel
+
+/-! ## Added after the independent review (audit/REVIEW-notes.md, items C10-4 and C10-1) -/
+
+/-- (C10-4) **the real loops compose to the idealised folds.** The replica's own run loop
+(`Replica.run`: sequence validation, skip / reject / apply, stop on a terminal record) fed with the
+record list the engine's run loop produces (`runWithAudit`: one record per event, stop after the
+terminal one) never skips and never rejects; it ends in the state `replicaRun` computes over the
+prefix of the feed the engine actually processed (up to and including the terminal record), and the
+engine ends in `engineRun` over the same prefix. So `replica_simulation`, which is stated for
+`engineRun` / `replicaRun`, is a statement about the two real loops. -/
+theorem replica_run_on_engine_stream (feed : List (Event × Ask)) :
+    ∀ (s : EngA) (rep : Replica), rep.seq + 1 = s.seq →
+    ∃ n, n ≤ feed.length ∧ ∃ rep', rep.run (runWithAudit s feed).2 = .ok rep' ∧
+      rep'.state = replicaRun rep.state (feed.take n) ∧
+      (runWithAudit s feed).1.eng = engineRun s.eng (feed.take n) := by
+  induction feed with
+  | nil =>
+    intro s rep _
+    exact ⟨0, by simp, rep, by simp [runWithAudit, Replica.run, Replica.step], rfl, rfl⟩
+  | cons t rest ih =>
+    intro s rep hseq
+    obtain ⟨ev, ask⟩ := t
+    have h1 : ¬ rep.seq ≥ s.seq := by omega
+    have h2 : ¬ rep.seq + 1 ≠ s.seq := by omega
+    simp only [runWithAudit]
+    split
+    · rename_i ht
+      refine ⟨1, by simp, ⟨replicaApply rep.state ev, s.seq⟩, ?_, ?_, ?_⟩
+      · simp only [processWithAudit] at ht
+        simp [Replica.run, Replica.step, processWithAudit, h1, h2, ht]
+      · simp [replicaRun]
+      · simp [engineRun, processWithAudit]
+    · rename_i ht
+      obtain ⟨n, hn, rep', hr, hs, he⟩ :=
+        ih (processWithAudit s ev ask).1 ⟨replicaApply rep.state ev, s.seq⟩ (by simp [processWithAudit])
+      refine ⟨n + 1, by simpa using hn, rep', ?_, ?_, ?_⟩
+      · simp only [processWithAudit] at ht hr
+        simp [Replica.run, Replica.step, processWithAudit, h1, h2, ht]
+        exact hr
+      · simpa [replicaRun] using hs
+      · simpa [engineRun, processWithAudit] using he
+
+/-- (C10-4) … hence the replication theorem for the two real loops: a replica that starts from the
+engine's snapshot (in sync, sequence one behind) and runs over the engine's own audit stream ends in
+sync with the engine, under the history hypotheses of `replica_simulation` on the processed prefix. -/
+theorem replica_run_synced (feed : List (Event × Ask)) (s : EngA) (rep : Replica)
+    (hseq : rep.seq + 1 = s.seq) (h : Synced s.eng rep.state)
+    (hok : ∀ n, n ≤ feed.length → HistoryOk s.eng (feed.take n)) :
+    ∃ rep', rep.run (runWithAudit s feed).2 = .ok rep' ∧ Synced (runWithAudit s feed).1.eng rep'.state := by
+  obtain ⟨n, hn, rep', hr, hs, he⟩ := replica_run_on_engine_stream feed s rep hseq
+  exact ⟨rep', hr, by rw [hs, he]; exact replica_simulation _ _ _ h (hok n hn)⟩
+
+/-- the history hypotheses are closed under prefixes, so `HistoryOk s.eng feed` discharges `hok` above -/
+theorem historyOk_take (e : Eng) (hist : List (Event × Ask)) (h : HistoryOk e hist) (n : Nat) :
+    HistoryOk e (hist.take n) := by
+  induction hist generalizing e n with
+  | nil => simpa using h
+  | cons t rest ih =>
+    cases n with
+    | zero => exact True.intro
+    | succ n =>
+      obtain ⟨ev, ask⟩ := t
+      obtain ⟨h1, h2, h3⟩ := h
+      exact ⟨h1, h2, ih _ h3 n⟩
+
+/-! ### (C10-1) the components this model does not carry -/
+
+section Rest
+variable {σ : Type}
+
+/-- ENGINE side of one more state component `σ` (connectivity, a balance register, a market-data
+register, a tear sheet, …): per processed event the engine applies the component's update function
+`upd` to the event (`EngineState::update_from_account` / `update_from_market` / `trading.update`), and
+then the strategy hooks that receive `&mut Engine` (`on_disconnect`, `on_trading_disabled`) may do
+`hook` to it. Nothing else touches it: commands and the generation stage only read the state and
+record in-flight orders. The list is the component's value after each record of the run (the run stops
+after a terminal record, as `runWithAudit`). -/
+def engineRest (upd : σ → Event → σ) (hook : Eng → Event → σ → σ) (s : EngA) (x : σ) :
+    List (Event × Ask) → List σ
+  | [] => []
+  | (ev, ask) :: rest =>
+    let r := processWithAudit s ev ask
+    let x' := hook s.eng ev (upd x ev)
+    if r.2.terminal then [x'] else x' :: engineRest upd hook r.1 x' rest
+
+/-- REPLICA side: `StateReplicaManager::run` with the component: every record it APPLIES (after the
+sequence validation of `Replica.step`) feeds the record's event to the same `upd`; the replica runs no
+strategy hook. The list is the component's value after each applied record; `Except.error` on an
+out-of-order stream. -/
+def Replica.runRest (upd : σ → Event → σ) (r : Replica) (x : σ) : List Tick → Except Unit (List σ)
+  | [] => .ok []
+  | .feedEnded _ :: _ => .ok []
+  | .process seq ev a :: ts =>
+    match r.step (.process seq ev a) with
+    | .ended => .ok []
+    | .skipped => Replica.runRest upd r x ts
+    | .error => .error ()
+    | .applied r' stop =>
+      if stop then .ok [upd x ev]
+      else (Replica.runRest upd r' (upd x ev) ts).map (upd x ev :: ·)
+
+/-- (C10-1) **`rest_components_replicate`.** For ANY further state component `σ` with ANY update
+function `upd` that engine and replica both apply to the event, and that nothing else touches — under
+the hypothesis, stated explicitly, that the strategy hooks `on_disconnect` / `on_trading_disabled` do
+NOT modify it (`hHook`) — the replica, started from the snapshot value `x` one sequence number behind
+the engine and run over the engine's own audit stream, applies every record (none skipped, none
+rejected) and its component equals the engine's AFTER EVERY RECORD. This is the statement behind the
+harness key `rep_rest_eq` (and `run_rep_rest_eq`), which compares connectivity, balances, market data
+and per-instrument statistics of the real `EngineState` and the real replica after every tick; the
+harness strategies' hooks do not mutate state, a strategy whose hooks do is outside the property. The
+hypothesis is necessary: `rest_hook_breaks_replication`. -/
+theorem rest_components_replicate (upd : σ → Event → σ) (hook : Eng → Event → σ → σ)
+    (hHook : ∀ e ev y, hook e ev y = y) (feed : List (Event × Ask)) :
+    ∀ (s : EngA) (rep : Replica) (x : σ), rep.seq + 1 = s.seq →
+      Replica.runRest upd rep x (runWithAudit s feed).2 = .ok (engineRest upd hook s x feed) := by
+  induction feed with
+  | nil => intro s rep x _; simp [runWithAudit, Replica.runRest, engineRest]
+  | cons t rest ih =>
+    intro s rep x hseq
+    obtain ⟨ev, ask⟩ := t
+    have h1 : ¬ rep.seq ≥ s.seq := by omega
+    have h2 : ¬ rep.seq + 1 ≠ s.seq := by omega
+    simp only [runWithAudit, engineRest, hHook]
+    split
+    · rename_i ht
+      simp only [processWithAudit] at ht
+      simp [Replica.runRest, Replica.step, processWithAudit, h1, h2, ht]
+    · rename_i ht
+      have := ih (processWithAudit s ev ask).1 ⟨replicaApply rep.state ev, s.seq⟩ (upd x ev)
+        (by simp [processWithAudit])
+      simp only [processWithAudit] at ht this
+      simp [Replica.runRest, Replica.step, processWithAudit, h1, h2, ht, this]
+      rfl
+
+/-- (C10-1) the hypothesis on the strategy hooks is necessary: a hook that changes the component on a
+disconnect-like event makes engine and replica differ (component = a counter of processed events,
+hook = "add 10 on `update other`"). -/
+theorem rest_hook_breaks_replication :
+    let upd : Nat → Event → Nat := fun n _ => n + 1
+    let hook : Eng → Event → Nat → Nat := fun _ ev n => match ev with | .update .other => n + 10 | _ => n
+    let feed : List (Event × Ask) := [(.update .other, askNone), (.update (.price 0 1), askNone)]
+    engineRest upd hook ⟨demoEng, 1⟩ 0 feed = [11, 12] ∧
+    Replica.runRest upd ⟨demoEng, 0⟩ 0 (runWithAudit ⟨demoEng, 1⟩ feed).2 = .ok [1, 2] := by
+  intro upd hook feed
+  exact ⟨by decide +kernel, rfl⟩
+
+/-! Non-vacuity: the hypotheses of `rest_components_replicate` are met by a counter component with an
+inert hook, on a history with a command, an order-generating tick and a shutdown. -/
+example :
+    let upd : Nat → Event → Nat := fun n ev => match ev with | .update _ => n + 1 | _ => n
+    engineRest upd (fun _ _ y => y) ⟨demoEng, 1⟩ 0
+      [(.update (.price 0 100), ask0), (.command (.cancelOrders .none), askNone), (.shutdown, askNone),
+       (.update .other, askNone)] = [1, 1, 1] := by decide +kernel
+
+end Rest
 
 end BarterModel.Props.C10
